@@ -84,10 +84,10 @@ let dump_chan = match Sys.getenv_opt "ORACLE_DUMP" with
   | Some p when p <> "" -> Some (open_out_gen [Open_append; Open_creat] 0o644 p)
   | _ -> None
 let summ (l : n list) : int list =
-  let b = List.map int_of_n l in
-  let len = List.length b in
-  if len <= 64 then len :: b
-  else [len; List.fold_left (+) 0 b; List.fold_left (fun c x -> (c * 31 + x) mod 1000000007) 7 b]
+  let len = List.length l in
+  if len <= 64 then len :: List.map int_of_n l
+  else [len; List.fold_left (fun a x -> a + int_of_n x) 0 l;
+        List.fold_left (fun c x -> (c * 31 + int_of_n x) mod 1000000007) 7 l]
 let bi b = if b then 1 else 0
 let dump (id : String.t) (nums : int list) : unit =
   match dump_chan with
